@@ -98,8 +98,8 @@ ScenarioProps(v) ==
   THEN {cur.prop}
   ELSE IF cur.prop = "C03" /\ v \cap {"deep_accept", "deep_nocrash"} # {}
   THEN {"C03"}       \* a well-formed message inside the conventional nesting limit is a message the reader must accept
-  ELSE IF cur.prop \in {"C03", "C09", "C10", "C11"} /\ v \cap {"recheck_stable", "mem_crash"} # {}
-  THEN {cur.prop}    \* a decoded value that changes under garbage collection was not decoded properly
+  ELSE IF cur.prop \in {"C01", "C03", "C07", "C09", "C10", "C11", "C16", "C17"} /\ v \cap {"recheck_stable", "mem_crash"} # {}
+  THEN {cur.prop}    \* a value that changes behind the caller's back (a decoded one under collections, an argument a later call reaches)
   ELSE IF cur.prop = "C12" /\ v \cap {"nocopy_exact", "nocopy_follows", "walk_noinput"} # {}
   THEN {"C12"}       \* C12: the nocopy option takes effect under every spelling of the tag
   ELSE IF cur.prop = "C16" /\ v \cap {"enc_bytes", "enc_ok", "enc_n"} # {}
